@@ -110,11 +110,13 @@ func c08Alphabet(thorough bool) []c08Op {
 		}
 	}
 	ops = append(ops, c08Op{Kind: "part", U: "u3", N: 1, Data: "A"})
+	// sparse part numbers: the minimum size applies to every listed part but the last, whatever its number
+	ops = append(ops, c08Op{Kind: "part", U: "u1", N: 5, Data: "c"}, c08Op{Kind: "part", U: "u1", N: 9, Data: "B"})
 	// source is 20 bytes: last byte 19 is the largest valid end; an end equal to the size is beyond the object
 	for _, rg := range []string{"", "bytes=0-0", "bytes=1-", "bytes=0-99999", "garbage", "bytes=2-9", "bytes=0-19", "bytes=0-20", "bytes=12-20"} {
 		ops = append(ops, c08Op{Kind: "partcopy", U: "u1", N: 2, Range: rg})
 	}
-	for _, spec := range []string{"1", "1,2", "2,1", "1,1", "2", "1!", "1,3", "3"} {
+	for _, spec := range []string{"1", "1,2", "2,1", "1,1", "2", "1!", "1,3", "3", "1,5,9", "5,9", "1,9"} {
 		ops = append(ops, c08Op{Kind: "complete", U: "u1", Spec: spec})
 	}
 	ops = append(ops, c08Op{Kind: "complete", U: "u2", Spec: "1"}, c08Op{Kind: "complete", U: "u2", Spec: "1,2"}, c08Op{Kind: "complete", U: "u3", Spec: "1"},
@@ -384,6 +386,17 @@ func (c *c08Runner) observe(m *c08Model) []string {
 			an = append(an, "object-listing-differs")
 		}
 	}
+	// ... also not when the prefix points into the gateway's own upload area
+	for _, pfx := range []string{".sgwtmp/", ".sgwtmp/multipart/", ".sgwtmp/multipart"} {
+		pfx := pfx
+		for _, dl := range []string{"", "/"} {
+			dl := dl
+			l2, err := p.ListObjectsV2(st.ctx(), &s3.ListObjectsV2Input{Bucket: sp(c08Bucket), Prefix: &pfx, Delimiter: &dl, StartAfter: &empty, ContinuationToken: &empty, MaxKeys: &max})
+			if err == nil && (len(l2.Contents) > 0 || len(l2.CommonPrefixes) > 0) {
+				an = append(an, "listing-shows-internal-upload-state")
+			}
+		}
+	}
 	// ListParts per upload (max 1000 and a max-parts=1 walk)
 	for _, name := range []string{"u1", "u2", "u3"} {
 		id := c.ids[name]
@@ -488,7 +501,7 @@ func C08(r *ck.Run) {
 	if r.Thorough() {
 		depth = 4
 	}
-	r.Rule(fmt.Sprintf("breadth-first search over every program of length <= %d of 33 (thorough 35) operations — uploadPart (2 uploads of the same key + 1 of another key, part numbers 1-2, 10-byte / 12-byte / 3-byte bodies, re-uploads included), uploadPartCopy with 9 source ranges (whole, sub-ranges, last byte, end equal to and beyond the source size, garbage), complete with 8 part specifications (valid, reordered, repeated, missing, wrong ETag, too-small non-last part), abort — on a real posix backend (minimum part size shrunk to 8 bytes by the overlay), states deduplicated on the reference multipart model; after EVERY step a second backend instance checks GET of both keys (bytes, multipart ETag, initiation metadata), ListObjectsV2, ListParts of every upload (max-parts 1000 and 1) and ListMultipartUploads (max-uploads 1000 and 1, markers followed); distinct = distinct state", depth))
+	r.Rule(fmt.Sprintf("breadth-first search over every program of length <= %d of 38 (thorough 40) operations — uploadPart (2 uploads of the same key + 1 of another key, part numbers 1-2 and sparse 5, 9, 10-byte / 12-byte / 3-byte bodies, re-uploads included), uploadPartCopy with 9 source ranges (whole, sub-ranges, last byte, end equal to and beyond the source size, garbage), complete with 11 part specifications (valid, reordered, repeated, missing, wrong ETag, too-small non-last part), abort — on a real posix backend (minimum part size shrunk to 8 bytes by the overlay), states deduplicated on the reference multipart model; after EVERY step a second backend instance checks GET of both keys (bytes, multipart ETag, initiation metadata), ListObjectsV2, ListParts of every upload (max-parts 1000 and 1) and ListMultipartUploads (max-uploads 1000 and 1, markers followed); distinct = distinct state", depth))
 	r.Assume("backend.MinPartSize is 8 bytes in this build (overlay constant), everything else is the real code; upload listings are compared as sets plus pagination completeness")
 	cfgs := []pxCfg{{}}
 	if r.Thorough() {
